@@ -22,6 +22,19 @@ def gen(rng, tier):
         for kind in ("eip2930", "eip1559"):
             j, _ = txgen.rand_tx(rng, kind=kind, al_shape=shape)
             cases.append(Case("tx.sign %s %s" % (hx(j), key()), tags=("accesslist-shape",)))
+    # access lists with repeated storage keys (adjacent and not), repeated addresses, identical entries
+    import json as _json
+    for kind in ("eip2930", "eip1559"):
+        for _ in range(12):
+            a, b = txgen.rand_addr(rng), txgen.rand_addr(rng)
+            k, j2 = ["0x" + bytes(rng.getrandbits(8) for _ in range(32)).hex() for _ in range(2)]
+            zero = "0x" + "00" * 32
+            al = rng.choice([[[a, [k, k]]], [[a, [k, j2, k]]], [[a, [k, k, k, j2, j2]]], [[a, [k]], [a, [k]]], [[a, []], [a, []]], [[a, [k]], [b, [k]]], [[a, [zero, zero]]],
+                             [[a, [k, j2]], [a, [j2, k]]], [[a.lower(), [k]], [a.upper().replace("0X", "0x"), [k]]]])
+            jt, _ = txgen.rand_tx(rng, kind=kind, al_shape=[])
+            obj = _json.loads(jt)
+            obj["accessList"] = al
+            cases.append(Case("tx.sign %s %s" % (hx(_json.dumps(obj)), key()), tags=("accesslist-repeats",)))
     for _ in range(2500 if tier == "thorough" else 400):
         j, exp = txgen.rand_tx(rng)
         cases.append(Case("tx.sign %s %s" % (hx(j), key()), tags=("random", "kind:" + exp["kind"], "to:" + ("none" if exp["to"] is None else "addr"))))
